@@ -184,7 +184,17 @@ func runWorker(env *Env, from, to int, journal, out string) {
 	for i := from; i < to; i++ {
 		jf.WriteString("S " + strconv.Itoa(i) + "\n") // unbuffered: survives a fatal error
 		c := &Case{Idx: i, Tier: env.Tier, Seed: env.Seed, Rng: caseRng(env.Seed, env.Prop.ID, i), sum: sum, dset: dset, env: env}
+		t0 := time.Now()
 		env.Prop.Run(c)
+		if d := time.Since(t0); d > 20*time.Second { // reported for tuning only, never part of a verdict
+			c.Max("slowest_case_seconds", int(d.Seconds()))
+			if f := os.Getenv("VERIF_SLOWLOG"); f != "" {
+				if lf, err := os.OpenFile(f, os.O_CREATE|os.O_APPEND|os.O_WRONLY, 0o644); err == nil {
+					fmt.Fprintf(lf, "%s case %d %.1fs\n", env.Prop.ID, i, d.Seconds())
+					lf.Close()
+				}
+			}
+		}
 	}
 	jf.WriteString("E\n")
 	jf.Close()
